@@ -14,6 +14,7 @@ class Spec(simcheck.SimSpec):
                 {'label': 'well-formed-2', 'family': 'well'},
                 {'label': 'malformed-returns', 'family': 'malformed'},
                 {'label': 'unmergeable-updates', 'family': 'unmergeable'},
+                {'label': 'tasks-calling-sys-exit', 'family': 'exiting'},
                 # results of an earlier run in the environment: dependencies
                 # that are re-executed must still finish first
                 {'label': 'initial-env-done', 'family': 'well',
